@@ -42,8 +42,8 @@ def _hs2(vals, f):
     return I.hs2(E, np.array(f), np.array([0.0]))
 
 
-@harness(P, quick=grid(shape=["pierson_moskowitz"], fg=["f3", "f4"]) + grid(shape=["gaussian", "jonswap"], fg=["f3"]) + grid(shape=["tma"], fg=["f3"], dep=[5000.0]),
-         thorough=grid(shape=["pierson_moskowitz", "jonswap", "gaussian"], fg=["f5"]) + grid(shape=["jonswap", "gaussian"], fg=["f4"]) + grid(shape=["tma"], fg=["f3", "f4"], dep=[12.0, 90.0, 600.0, 5000.0]), max_paths=400, time_budget=400, time_budget_thorough=1500, hard_timeout_thorough=1800)
+@harness(P, quick=grid(shape=["pierson_moskowitz"], fg=["f3", "f4"]) + grid(shape=["gaussian"], fg=["f3"]),
+         thorough=grid(shape=["pierson_moskowitz", "jonswap", "gaussian"], fg=["f5"]) + grid(shape=["jonswap"], fg=["f3"]) + grid(shape=["jonswap", "gaussian"], fg=["f4"]) + grid(shape=["tma"], fg=["f3", "f4"], dep=[12.0, 90.0, 600.0, 5000.0]), max_paths=400, time_budget=200, hard_timeout=420, obl_timeout=10000, obl_timeout_thorough=60000, time_budget_thorough=1500, hard_timeout_thorough=1800)
 def height(env, shape, fg, dep=None):
     """a spectrum built with a requested Hs has exactly that Hs (accessor's definition) and is non-negative."""
     from wavespectra.construct import frequency as FR
@@ -103,7 +103,7 @@ def tma_deep(env, fg, dep):
         env.close(av, b.values, "tma(deep water) == jonswap", rel=1e-6, abs_=0.0, ctol=1e-5)
 
 
-@harness(P, quick=grid(dg=["d4", "d4r"], kind=["scalar"]), thorough=grid(dg=["d6r", "d5"], kind=["scalar"]) + grid(dg=["d4r"], kind=["array"]), max_paths=3000, time_budget=500, time_budget_thorough=2400, hard_timeout_thorough=2700)
+@harness(P, quick=grid(dg=["d4", "d4r"], kind=["scalar"]), thorough=grid(dg=["d6r", "d5"], kind=["scalar"]) + grid(dg=["d4r"], kind=["array"]), max_paths=3000, time_budget=300, hard_timeout=600, obl_timeout=30000, time_budget_thorough=2400, hard_timeout_thorough=2700)
 def spreading(env, dg, kind):
     """cartwright: non-negative and integrates to one over the circle, for every mean direction and spread."""
     from wavespectra.construct import direction as DR
@@ -136,7 +136,7 @@ def spreading(env, dg, kind):
         env.close(sum(r) * dd, 1.0, "spreading function integrates to one over the circle", rel=1e-9, ctol=1e-9)
 
 
-@harness(P, quick=grid(dg=["d4r"], fg=["f3"]), thorough=grid(dg=["d6r", "d4"], fg=["f4"]), max_paths=3000, time_budget=500)
+@harness(P, quick=grid(dg=["d4r"], fg=["f3"]), thorough=grid(dg=["d6r", "d4"], fg=["f4"]), max_paths=3000, time_budget=240, hard_timeout=420, obl_timeout=12000, obl_timeout_thorough=60000)
 def partition_1d(env, dg, fg):
     """construct_partition: shape x spreading integrates over direction back to the 1-D shape."""
     from wavespectra.construct import construct_partition
